@@ -432,7 +432,8 @@ OperatorReg ==          \* operators that only change registers
               [] OpX = 203 -> SetReg(IF OpY = 255 THEN [r1 EXCEPT !.rvw = 0]
                                      ELSE IF OpY = 0 THEN [r1 EXCEPT !.rvw = 0, !.newref = <<>>]
                                      ELSE [r1 EXCEPT !.rvw = OpY])
-              [] OpX = 204 -> IF OpY = 0 THEN (IF r1.assoc = <<>> THEN Fail("IndexError")
+              [] OpX = 204 -> IF OpY # 0 /\ r1.assoc # <<>> THEN Fail("OutsideWF")       \* nested 204: FM-94 is silent
+                              ELSE IF OpY = 0 THEN (IF r1.assoc = <<>> THEN Fail("IndexError")
                                                ELSE SetReg([r1 EXCEPT !.assoc = SubSeq(@, 1, Len(@) - 1)]))
                               ELSE SetReg([r1 EXCEPT !.assoc = Append(@, OpY)])
               [] OpX = 206 -> SetReg([r1 EXCEPT !.skipw = OpY])
@@ -477,6 +478,7 @@ OperatorMarker ==
     /\ LET r1 == Pre(reg, Ins, out) IN
        IF r1.bmst = "ERR" THEN Fail("PyBufrKitError")
        ELSE IF r1.selpos > Len(r1.sel) THEN Fail("StopIteration")
+       ELSE IF r1.assoc # <<>> THEN Fail("OutsideWF")                  \* 204 in force at a marker operator: FM-94 is silent
        ELSE LET owner == r1.sel[r1.selpos]
                 oe == out[owner]
                 oid == ToInt(oe.lab)
